@@ -30,6 +30,8 @@ def items(tier: str) -> List[Any]:
     seen = set()
     for field in FIELDS:
         full, small = alphabets(tier, field)
+        for a in (small[0], small[1], small[3]):
+            full = full + A.cross_block(a)
         # RekeyTo gets the full structure space; the other three fields share the code path and get
         # the atom table + smaller structure spaces in the quick tier
         l2 = None if (field == "RekeyTo" or tier != "quick") else 2
